@@ -1,7 +1,7 @@
 ---------------------------- MODULE MetadataTrace ----------------------------
 (* Trace validation for C11: the answers of the real metadata API (any family, incl. one engine object reused   *)
 (* across calls, and the command line) must be the answers the Metadata specification gives.                    *)
-EXTENDS Metadata, Json, IOUtils
+EXTENDS Metadata, Json, IOUtils, FiniteSets
 Tr == ndJsonDeserialize(IOEnv.TRACE)
 VARIABLES l, doc, meta, body, nupd
 tvars == <<l, doc, meta, body, nupd>>
@@ -20,7 +20,9 @@ TNext ==
                            /\ Same
        [] r.e = "keys"  -> r.res = KeyList(meta) /\ Same
        [] r.e = "val"   -> r.res = Lookup(meta, Keys[r.k].n) /\ Same
-       [] r.e = "head"  -> /\ ~r.null /\ {r.pairs[i] : i \in 1 .. Len(r.pairs)} = {<<meta[i].k, meta[i].v>> : i \in 1 .. Len(meta)} /\ Len(r.pairs) = Len(meta) /\ Same      \* the complete document carries the same keys and values (each once; their order is not prescribed)
+       [] r.e = "head"  -> /\ ~r.null /\ LET firsts == {i \in 1 .. Len(meta) : \A j \in 1 .. (i - 1) : meta[j].k # meta[i].k} IN          \* (a key written twice is reported -- and carried -- with its first value)
+                                        {r.pairs[i] : i \in 1 .. Len(r.pairs)} = {<<meta[i].k, meta[i].v>> : i \in firsts} /\ Len(r.pairs) = Cardinality(firsts)
+                           /\ Same      \* the complete document carries the same keys and values (each once; their order is not prescribed)
        [] r.e = "upd"   -> meta' = Update(meta, r.k, r.u) /\ nupd' = nupd + 1 /\ UNCHANGED <<doc, body>>
        [] OTHER -> FALSE
 TraceAccepted == TLCGet("stats").diameter = Len(Tr) + 1
